@@ -316,6 +316,10 @@ def compare_session(case, steps, out):
         res, state, extra = ml.split('|')
         if st.get('stop'):   # non-finite numbers on the implementation side: outside the compared domain
             return None
+        if st['res'] == 'E:Other:OverflowError':
+            continue   # a Python float overflowed: outside the compared domain
+        if st.get('op') == 'rdiv' and res == 'E:ZeroDiv' and st['res'] in ('ok', 'E:ZeroDiv'):
+            continue   # c / 0: Python floats raise, NumPy scalars return inf — outside the compared domain
         if res != st['res']:
             return dict(at=k, line=st['line'], why=f"outcome: model={res} impl={st['res']}", model=ml)
         why = cmp_state(parse_state(state), st['obs'], prob)
@@ -332,6 +336,8 @@ def compare_session(case, steps, out):
                 if why: return dict(at=k, line=st['line'], why='returned object: ' + why, model=ml)
             else:
                 mv = val_from_tok(body); iv = st['extra'][1]
+                if 'nonfinite' in (iv if isinstance(iv, list) else [iv]) or 'nonfinite' in (mv if isinstance(mv, list) else [mv]):
+                    continue   # overflow of a double: outside the compared domain
                 vals_m = parse_state(state)['values']
                 rel, abs_ = compute_tol(st['op'], st['info'].get('c'), prob, vals_m, mv)
                 if not cmp_val(mv, iv, rel, abs_):
@@ -353,7 +359,7 @@ def compute_tol(op, c, prob, vals, result):
     if op == 'pow':
         n = max(int(c), 1)
         relv = 32 * U + (a / float(vmin) if vmin else 0.0)
-        return min(n * relv * 2, 0.5), (a if vmin == 0 else 0.0)
+        return min(n * relv * 2, 0.5), (a if vmin == 0 else 0.0) + 1e-290   # + underflow floor
     return 16 * U, a
 
 
@@ -366,7 +372,7 @@ def gen_dt(rng, allow_none=True):
     if r < 0.35: return rng.choice(DT_INT)
     if r < 0.6: return rng.choice(DT_DYADIC)
     if r < 0.9: return rng.choice(DT_DEC)
-    return round(rng.uniform(0.01, 20), rng.choice([1, 2, 3]))
+    return max(round(rng.uniform(0.01, 20), rng.choice([1, 2, 3])), 0.05)
 
 
 def gen_unit(rng, p_none=0.15, p_alias=0.15, p_special=0.05, p_bad=0.04):
@@ -479,7 +485,7 @@ def make_probe(ss, specs, mu, mdt):
             nested = sc.objdict(inner=pars.pop('inner')) if 'inner' in pars else None
             if nested is not None: pars['nested'] = nested
             self.define_pars(**pars)
-            self.update_pars(**kw)
+            self.update_pars(None, **kw)
         def step(self): pass
     kw = {}
     if mu is not None: kw['unit'] = mu
@@ -602,6 +608,8 @@ def correspond(ctx):
             l2 = f"F init 1 {tok_unit(pu)} {tok_opt(pdt)} ~ 1 0"
             per.append((mc, name, kind, obs[name], len(lines)))
             lines += [l1, l2]
+    if not per:
+        ctx.broke('correspondence', 'C06.init_time', 'no generated sim could be initialised: the Module.init_time path was not compared')
     out = ctx.drive(DRIVER, lines)
     for mc, name, kind, o, off in per:
         ml = out[off + 1]
